@@ -82,6 +82,20 @@ Theorem C17_continues_after_recovery : forall max net cksum,
 Proof. exact continues_after_recovery. Qed.
 Print Assumptions C17_continues_after_recovery.
 
+(* Recovery after a crash inside a commit that rolled over (once or several
+   times): the metadata cursor is (file N, offset |d|) and the disk ends in a
+   later file whose length is unrelated to that offset (typically much smaller).
+   The comparison in reconcileDB is lexicographic on (file, offset): the later
+   files are deleted, file N is cut back to the cursor, never "corruption". *)
+Theorem C17_reconcile_after_rollover : forall max net : N,
+  max < 4294967296 -> net < 4294967296 ->
+  forall ds0 d suf more z,
+  len d <= max -> small ((d ++ suf) :: more ++ [z]) ->
+  reconcile (map Some (ds0 ++ (d ++ suf) :: more ++ [z])) (N.of_nat (length ds0), len d)
+  = Ok (active ds0 d).
+Proof. exact reconcile_after_rollover. Qed.
+Print Assumptions C17_reconcile_after_rollover.
+
 (* the database made by Create satisfies the premise *)
 Theorem C17_created_database_start_ok : forall max net cksum,
   max < 4294967296 -> net < 4294967296 ->
@@ -114,3 +128,10 @@ Example C17_sess0_cut_between_batches :
     c' = (1, 57) /\ d_fetch 7 ck0 D' 1 = Ok (repeat 5 45%nat) /\ d_fetch 7 ck0 D' 2 = Err ENotFound /\
     d_meta D' 0 = None /\ durable_index (firstn 61 tr0) 0 = 2%nat.
 Proof. vm_compute. eexists; eexists; repeat split; reflexivity. Qed.
+
+(* disk at (file 2, offset 3) against metadata (file 0, offset 40): "after", not "before" *)
+Example C17_cursor_order_is_lexicographic :
+  cursor_lt (0, 40) (2, 3) = true /\ cursor_lt (2, 3) (0, 40) = false /\
+  reconcile [Some (repeat 1 50%nat); Some (repeat 2 20%nat); Some [3; 3; 3]] (0, 40)
+  = Ok (mkstore [Some (repeat 1 40%nat)] 0 40).
+Proof. vm_compute. repeat split; reflexivity. Qed.
